@@ -46,7 +46,9 @@ GG = /[z-a][9-0]a{3,1}x{8,7}/;
 def bad_patterns(rng):
     bad = ["/[a-z]{3,1}/", "/[z-a]+/", "/x{5,2}y/", "/[9-0]/", "/(a|b){2,1}/", "/[b-a][d-c]/", "/a{9,8}/",
            # several different problems in one pattern: one diagnostic line each, in the order they occur in the pattern
-           "/[9-0]+(x{4,2})?/", "/[z-a][9-0]a{3,1}/", "/(a{2,1}|[d-c]|[f-e]{7,6})/", "/[b-a][d-c][f-e][h-g]/"]
+           "/[9-0]+(x{4,2})?/", "/[z-a][9-0]a{3,1}/",
+           # a recorded problem followed by a syntax failure: the pattern is rejected as a whole, nothing of it may linger
+           "/[z-a/", "/a{3,1}(/", "/[9-0]+(x/", "/x{5,2}[/", "/(a{2,1}|[d-c]|[f-e]{7,6})/", "/[b-a][d-c][f-e][h-g]/"]
     good = ["/[0-9]+/", "/[a-z]+/", "/if|else/", "/==?/"]
     names = ["AA", "BBB", "CC", "DDDD", "EE", "FF", "GG", "HH"]
     k = rng.choice([3, 4, 5, 6])
@@ -161,7 +163,7 @@ def run(ctx):
             return 40
         if t in gdef:
             return 12
-        return 60 if ("{3,1}" in t or "[z-a]" in t or "{5,2}" in t or "[9-0]" in t or "{2,1}" in t or "[b-a]" in t or "{9,8}" in t) else nin
+        return 60 if ("[z-a/" in t or "(/" in t or "[/" in t or "{3,1}" in t or "[z-a]" in t or "{5,2}" in t or "[9-0]" in t or "{2,1}" in t or "[b-a]" in t or "{9,8}" in t) else nin
     res = ctx.run_impl_par("det", ["%s %d" % (hx(t.encode()), reps(t)) for t in texts], nproc=8, timeout=1500, isolate=True)
     stats = {"specifications": len(texts), "in_process_runs": len(texts) * nin, "process_runs": 0, "generated": 0, "rejected": 0, "skipped_known_crash": 0}
     distinct = set()
